@@ -125,10 +125,13 @@ impl TimerQueue {
     }
 
     pub(super) fn next(&self) -> Option<SimTime> {
+        // Slots whose timers were all dropped or reset stay in the queue until
+        // their time has passed. They must not hide later slots that still hold
+        // live timers, otherwise no wakeup is scheduled for those.
         self.pending
             .borrow()
-            .front()
-            .filter(|slot| !slot.entrys.borrow().is_empty())
+            .iter()
+            .find(|slot| !slot.entrys.borrow().is_empty())
             .map(|s| s.time)
     }
 
